@@ -4,7 +4,7 @@ import copy
 from . import config as cfg
 from . import gen, hist
 from .refs import RefError, prelude_from_trace_decls
-from .runner import Check, bump, death_of, empty_result, log_hash, stable_hash, sub_rng
+from .runner import Check, sim_ticks, bump, death_of, empty_result, log_hash, stable_hash, sub_rng
 
 PURE_SAT_SIDE = {'QF_UF', 'QF_LRA', 'QF_RDL', 'QF_IDL'}
 
@@ -54,6 +54,7 @@ class C22(Check):
         resp = ctx.osim('sim').run(self.build_plan(case))
         res['hash'] = log_hash(resp)
         bump(res, 'runs')
+        bump(res, 'sim-ticks', sim_ticks(resp))
         d = death_of(resp)
         if d and d[0] == 'harness':
             raise RuntimeError('harness: %r' % (d[1],))
